@@ -28,7 +28,8 @@ PROP = {
                   "hand is modelled as stopping at its first error (the real receiver could go on after Lagged). Hash map/set: events of an "
                   "unfinished incremental initial value are compared as a set (hash order).",
     "trivial_sig": r"^lag:(malformed|\w+:nosub)$",
-    "rule": "cases from one PRNG (VERIF_SEED): kind (vector, deque, map, set, list; every 6th case remote vector), 0-3 initial elements, "
+    "rule": "In half of the cases (chosen by the input) hand-held subscriptions are consumed the way a select! loop does (a pending recv() future is dropped and recreated after the other tasks ran). "
+            "Cases from one PRNG (VERIF_SEED): kind (vector, deque, map, set, list; every 6th case remote vector), 0-3 initial elements, "
             "1-3 early subscribers (mirror 60% / by hand, snapshot or incremental, buffer 1-4, max_size 1-5 in 1 of 6), then 3-14 big steps: "
             "bursts of 1-8 calls without a scheduling point (incl. multi-event iter_mut, done), recv of 1-10 events by a slow consumer, new "
             "subscribers, drop of the collection, drop/detach of a subscriber, remote: stall/release and cut of the transport; all tasks run "
